@@ -47,3 +47,23 @@ pub mod clock {
         }
     }
 }
+
+/// The global slot chain's slots plus one extra statistic slot (order decides its place), so that
+/// a harness can observe what the statistic slots are told (block error, pass/blocked/completed).
+pub fn slot_chain_with(extra: std::sync::Arc<dyn crate::base::StatSlot>) -> std::sync::Arc<crate::base::SlotChain> {
+    use crate::{circuitbreaker, flow, hotspot, isolation, stat, system};
+    let mut sc = crate::base::SlotChain::new();
+    sc.add_stat_prepare_slot(stat::default_resource_node_prepare_slot());
+    sc.add_rule_check_slot(system::default_slot());
+    sc.add_rule_check_slot(flow::default_slot());
+    sc.add_rule_check_slot(isolation::default_slot());
+    sc.add_rule_check_slot(hotspot::default_slot());
+    sc.add_rule_check_slot(circuitbreaker::default_slot());
+    sc.add_stat_slot(stat::default_resource_stat_slot());
+    sc.add_stat_slot(crate::log::default_stat_slot());
+    sc.add_stat_slot(flow::default_stand_alone_stat_slot());
+    sc.add_stat_slot(hotspot::default_stand_alone_stat_slot());
+    sc.add_stat_slot(circuitbreaker::default_metric_stat_slot());
+    sc.add_stat_slot(extra);
+    std::sync::Arc::new(sc)
+}
